@@ -8,6 +8,8 @@ import (
 // RespHeaderBinding is the respHeader binder for response header.
 type RespHeaderBinding struct {
 	EnableSplitting bool
+	// Immutable copies keys and values out of the response buffers before they are bound
+	Immutable bool
 }
 
 // Name returns the binding name.
@@ -27,6 +29,9 @@ func (b *RespHeaderBinding) Bind(resp *fasthttp.Response, out any) error {
 
 		k := utils.UnsafeString(key)
 		v := utils.UnsafeString(val)
+		if b.Immutable {
+			k, v = string(key), string(val)
+		}
 		err = formatBindData(out, data, k, v, b.EnableSplitting, false)
 	})
 
@@ -40,4 +45,5 @@ func (b *RespHeaderBinding) Bind(resp *fasthttp.Response, out any) error {
 // Reset resets the RespHeaderBinding binder.
 func (b *RespHeaderBinding) Reset() {
 	b.EnableSplitting = false
+	b.Immutable = false
 }
